@@ -189,8 +189,8 @@ static inline JitAllocator* allocator() { return reinterpret_cast<JitAllocator*>
 // pointers into the same object (well-defined in C and in the solver's memory model); positions are symbolic slots.
 // Units that never touch JIT memory (JENV_ARENA_BYTES undefined) give the solver a 64-byte stand-in: only addresses
 // matter there, and any access the allocator made to JIT memory would be reported as out of bounds.
-#if defined(JENV_ARENA_BYTES)
-static constexpr size_t kArenaBytes = JENV_ARENA_BYTES;
+#if defined(JENV_CBMC_ARENA_BYTES) && defined(VERIF_CBMC)
+static constexpr size_t kArenaBytes = JENV_CBMC_ARENA_BYTES;   // the solver's window of real JIT memory (fill / write units)
 #elif defined(VERIF_CBMC)
 static constexpr size_t kArenaBytes = 64;
 #else
